@@ -263,6 +263,34 @@ def cmp_sorted_ok(ranges):
     return None
 
 
+def uniform_format(ranges):
+    """python reading of HLSortOrder.fmt_ok: one zero-padding format per prefix (a range whose width exceeds the digits of
+    its lo fixes the width W of its prefix; every other range of that prefix must be indifferent to W); plain names width 0"""
+    W = {}
+    for pfx, lo, hi, w, single in ranges:
+        if single:
+            if w != 0:
+                return False
+        elif w > len(str(lo)) and W.setdefault(pfx, w) != w:
+            return False
+    for pfx, lo, hi, w, single in ranges:
+        if not single and w <= len(str(lo)) and W.get(pfx, 0) > len(str(lo)):
+            return False
+    return True
+
+
+def fmt_sorted_ok(ranges):
+    """conclusion of C14_sort_sorted on the range array: sorted by (prefix in byte order, plain name first, lo) and
+    neighbours of one prefix do not overlap (hi <= lo) -- hence the expansion is sorted by (prefix, number)"""
+    for a, b in zip(ranges, ranges[1:]):
+        ka, kb = (a[0], 0 if a[4] else 1, a[1]), (b[0], 0 if b[4] else 1, b[1])
+        if ka > kb:
+            return "range keys out of order: %r before %r" % (ka, kb)
+        if a[0] == b[0] and not a[4] and not b[4] and a[2] > b[1]:
+            return "neighbours of prefix %r overlap: [%d-%d] before [%d-%d]" % (a[0], a[1], a[2], b[1], b[2])
+    return None
+
+
 def monitor(ops, tr):
     """ops: the case's op list (tuples); tr: Trace of the IMPLEMENTATION.  raises Viol at the first answer of the
     implementation that contradicts the reference semantics.  Returns number of clause checks made."""
@@ -380,6 +408,14 @@ def monitor(ops, tr):
                 why = cmp_sorted_ok(post["ranges"])
                 if why:
                     bad("sort_sorted", "sort", why)
+            # C14_sort_sorted: one zero-padding format per prefix, numbers below 2^31, at most SORT_MAX_NAMES names ->
+            # sorted and non-overlapping, repeated names included
+            if (in_scope_names(pre["ranges"]) and uniform_format(pre["ranges"]) and state_size(pre["ranges"]) <= 10240
+                    and all(r[4] or r[2] < 2 ** 31 for r in pre["ranges"])):
+                checks += 1
+                why = fmt_sorted_ok(post["ranges"])
+                if why:
+                    bad("sort_sorted", "sort_uniform_format", why)
         elif kind == "Q" and pre_e is not None and in_scope_names(pre["ranges"]):
             checks += 1
             got = [unhx(x) for x in res]
